@@ -447,6 +447,145 @@ fn wrap_around_cases(ctx: &Ctx) {
     }
 }
 
+/// The instruction at the very end (or start) of the flash and a target on the other side of that edge: the
+/// statement is about the displacement, not about where the target lies - `rjmp pc+1` in the last word of the
+/// flash has d = 0 and builds, whichever way the target is written.
+fn flash_edge_cases(ctx: &Ctx) {
+    let forms = isa::forms();
+    let table = crate::refmodel::devices::table();
+    let mut sizes: Vec<(i64, Option<String>)> = vec![(4_194_304, None)];
+    for (n, d) in &table {
+        if crate::refmodel::devices::forbidding_flag(d, "rjmp").is_none() && !sizes.iter().any(|(s, _)| *s == d.flash_size as i64) {
+            sizes.push((d.flash_size as i64, Some(n.clone())));
+        }
+    }
+    for (size, dev) in &sizes {
+        let size = *size;
+        for form in forms.iter().filter(|f| f.mn == "rjmp" || f.mn == "rcall" || f.mn == "brne") {
+            let Some(Opk::Rel { bits, .. }) = form.ops.last().copied() else { continue };
+            let h = 1i64 << (bits - 1);
+            let mut cases: Vec<(i64, i64)> = vec![];
+            for at in [size - 1, size - 2, size - h] {
+                for d in [0, 1, h - 1, h] {
+                    cases.push((at, d));
+                }
+            }
+            for at in [0, 1] {
+                for d in [-2, -3, -h, -h - 1] {
+                    cases.push((at, d));
+                }
+            }
+            for (at, d) in cases {
+                if at < 0 {
+                    continue;
+                }
+                let target = at + 1 + d;
+                let fits = d >= -h && d < h;
+                for how in 0..3 {
+                    let rel = target - at;
+                    let (pre, operand) = match how {
+                        0 => (String::new(), if rel >= 0 { format!("pc+{}", rel) } else { format!("pc-{}", -rel) }),
+                        1 => (String::new(), if target >= 0 { format!("0x{:x}", target) } else { format!("{}", target) }),
+                        _ => (format!(".equ over_the_edge = {}\n", target), "Over_The_Edge".to_string()),
+                    };
+                    let src = format!("; C03 flash edge case\n{}{}{}\t{} {}\n", dev.as_ref().map(|d| format!(".device {}\n", d)).unwrap_or_default(), pre, if at > 0 { format!(".org 0x{:x}\n", at) } else { String::new() }, form.mn, operand);
+                    let out = fw::build_str(&src);
+                    ctx.eval(1);
+                    ctx.count("flash_edge_cases", 1);
+                    ctx.distinct(fw::mix64(0x3ED6 ^ (size as u64) << 8, (at as u64) << 24 ^ (d as u64) << 2 ^ how));
+                    let ok = match &out {
+                        Outcome::Panic(_) => false,
+                        Outcome::Err(_) => !fits,
+                        Outcome::Ok(b) => {
+                            let off = at as usize * 2;
+                            fits && b.code.get(off..off + 2).map(|w| w == &isa::words_to_bytes(&isa::encode(form, &[d]))[..]).unwrap_or(false)
+                        }
+                    };
+                    if !ok {
+                        ctx.violation(
+                            format!("rel/{}/{}/flash-edge-{}", form.name, if fits { "in-range-wrong" } else { "out-of-range-accepted" }, size),
+                            format!("{} {} at 0x{:x} of {} words ({}): d = {} {}: {}", form.mn, operand, at, size, dev.as_deref().unwrap_or("no device"), d, if fits { "fits" } else { "does not fit" }, fw::clip(&format!("{:?}", out.kind()), 80)),
+                            json!({"source": src, "form": form.name, "flag": 0, "d": d, "fits": fits, "wrap": true, "instr_word_addr": at, "observed": out.kind()}),
+                        );
+                    }
+                }
+            }
+        }
+    }
+}
+
+/// The branch as the last line of a file, with and without a line end behind it, in LF and CRLF files, and in
+/// files that hold bytes that are not UTF-8 or begin with a byte order mark (such a file may be refused; if
+/// it is built, the branch reaches its target all the same). The label has a namesake that is one character
+/// shorter and the pc offset has two digits: a last line that loses a character still assembles.
+fn last_line_cases(ctx: &Ctx) {
+    let forms = isa::forms();
+    for form in forms.iter().filter(|f| f.mn == "rjmp" || f.mn == "rcall" || f.mn == "brne" || f.mn == "brcs") {
+        for gap in [11i64, 13, 27] {
+            for by_label in [true, false] {
+                // loop1 at 0, loop10 at 2, the branch at 2 + gap
+                let at = 2 + gap;
+                let target = if by_label { 2 } else { at - gap };
+                let d = target - (at + 1);
+                let mut lines: Vec<String> = vec!["; C03 last line case, 16 MHz".into(), "loop1:\tnop".into(), "\tnop".into(), "loop10:\tnop".into()];
+                for _ in 1..gap {
+                    lines.push("\tnop".into());
+                }
+                lines.push(if by_label { format!("\t{} loop10", form.mn) } else { format!("\t{} pc-{}", form.mn, gap) });
+                let expect = isa::words_to_bytes(&isa::encode(form, &[d]));
+                for variant in 0..7 {
+                    let (eol, final_eol, latin1, bom) = match variant {
+                        0 => ("\n", true, false, false),
+                        1 => ("\n", false, false, false),
+                        2 => ("\r\n", false, false, false),
+                        3 => ("\r\n", true, false, false),
+                        4 => ("\n", false, true, false),
+                        5 => ("\n", true, true, false),
+                        _ => ("\n", false, false, true),
+                    };
+                    let mut bytes: Vec<u8> = vec![];
+                    if bom {
+                        bytes.extend([0xef, 0xbb, 0xbf]);
+                    }
+                    for (i, l) in lines.iter().enumerate() {
+                        bytes.extend(l.as_bytes());
+                        if i == 0 && latin1 {
+                            bytes.extend(b", 1 \xb5s per cycle \xb0");
+                        }
+                        if i + 1 < lines.len() || final_eol {
+                            bytes.extend(eol.as_bytes());
+                        }
+                    }
+                    let must_build = !latin1 && !bom;
+                    let out = fw::build_main_with_part_bytes(&bytes, b"");
+                    ctx.eval(1);
+                    ctx.count("last_line_of_file_cases", 1);
+                    ctx.distinct(fw::mix64(0x3A57 ^ gap as u64, fw::hash_str(&form.name) ^ variant << 3 ^ by_label as u64));
+                    let ok = match &out {
+                        Outcome::Panic(_) => false,
+                        Outcome::Err(e) => !must_build && !e.starts_with("HARNESS:"),
+                        Outcome::Ok(b) => b.code.len() == (at as usize + 1) * 2 && b.code[at as usize * 2..] == expect[..],
+                    };
+                    if let Outcome::Err(e) = &out {
+                        if e.starts_with("HARNESS:") {
+                            ctx.inconclusive(e.clone());
+                            continue;
+                        }
+                    }
+                    if !ok {
+                        let what = ["lf-with-final-line-end", "lf-no-final-line-end", "crlf-no-final-line-end", "crlf-with-final-line-end", "not-utf8-no-final-line-end", "not-utf8-with-final-line-end", "byte-order-mark"][variant as usize];
+                        ctx.violation(
+                            format!("rel/{}/last-line-of-file/{}", form.name, what),
+                            format!("`{}` as the last line of a file ({}): d = {} expected, got {}", lines.last().unwrap().trim(), what, d, fw::clip(&format!("{:?}", out.brief()), 120)),
+                            json!({"file_bytes_hex": fw::hex(&bytes, 8192), "form": form.name, "d": d, "must_build": must_build, "instr_word_addr": at, "last_line": true}),
+                        );
+                    }
+                }
+            }
+        }
+    }
+}
+
 /// The instruction sits in a one-line macro body that is expanded several times back to back (all
 /// copies share one source line number), with a pc-relative target and with a label outside.
 fn macro_cases(ctx: &Ctx) {
@@ -577,6 +716,8 @@ pub fn run(ctx: &Ctx) -> i32 {
     }
     far_cases(ctx);
     wrap_around_cases(ctx);
+    flash_edge_cases(ctx);
+    last_line_cases(ctx);
     macro_cases(ctx);
     let cs = cases(ctx);
     let mut forms_seen = std::collections::BTreeSet::new();
@@ -589,12 +730,31 @@ pub fn run(ctx: &Ctx) -> i32 {
     ctx.exhaustive.store(true, std::sync::atomic::Ordering::Relaxed);
     fw::finish(
         ctx,
-        "for each of the 18 br<cond> mnemonics, brbs/brbc x 8 flags, rjmp and rcall: every displacement in the stated window (branches -80..80; rjmp/rcall around both limits and zero, thorough -2100..2100) x filler mixes (nop-only and random mixes of one/two-word instructions, .dw/.db/.dq data, .org gaps) x target spellings (label, label+k, label-k, pc±k) x start addresses; plus far targets: displacements within ±65/±2049 of ±2^k for k up to 40, pc-relative and through labels placed with .org (all must be rejected); rjmp/rcall/brne near either end of the flash of one device per power-of-two flash size with the target near the other end (a wrapped displacement would fit; must be rejected) and in-range controls there; and every form inside a one-line macro body expanded several times back to back (pc-relative and label targets), and with the target as a macro parameter (pc-relative text at both limits and one beyond, forward and backward labels; macro defined and called inside taken conditional branches); distinct_nontrivial = distinct (mnemonic, flag, displacement) triples",
+        "for each of the 18 br<cond> mnemonics, brbs/brbc x 8 flags, rjmp and rcall: every displacement in the stated window (branches -80..80; rjmp/rcall around both limits and zero, thorough -2100..2100) x filler mixes (nop-only and random mixes of one/two-word instructions, .dw/.db/.dq data, .org gaps) x target spellings (label, label+k, label-k, pc±k) x start addresses; plus far targets: displacements within ±65/±2049 of ±2^k for k up to 40, pc-relative and through labels placed with .org (all must be rejected); rjmp/rcall/brne near either end of the flash of one device per power-of-two flash size with the target near the other end (a wrapped displacement would fit; must be rejected) and in-range controls there; the same three at the last words and the first words of every flash size of the table and of the 4 Mi-word default with targets on the other side of the edge (d = 0, 1, the largest that fits, one more; written as pc±k, as a number, through an .equ); the branch as the last line of a file (label with a shorter namesake, two-digit pc offset) with and without a final line end, LF and CRLF, and in files with non-UTF-8 bytes or a byte order mark (refused or built right); and every form inside a one-line macro body expanded several times back to back (pc-relative and label targets), and with the target as a macro parameter (pc-relative text at both limits and one beyond, forward and backward labels; macro defined and called inside taken conditional branches); distinct_nontrivial = distinct (mnemonic, flag, displacement) triples",
         &["distances are realised with reference encodings of the filler items (refmodel/isa.rs); decode by the independent decoder"],
     )
 }
 
 pub fn replay(ctx: &Ctx, case: &Value) -> i32 {
+    if case["last_line"].as_bool() == Some(true) {
+        let hexs = case["file_bytes_hex"].as_str().unwrap_or("");
+        let bytes: Vec<u8> = (0..hexs.len() / 2).filter_map(|i| u8::from_str_radix(&hexs[2 * i..2 * i + 2], 16).ok()).collect();
+        let form = isa::form(case["form"].as_str().unwrap_or("rjmp"));
+        let at = case["instr_word_addr"].as_u64().unwrap_or(0) as usize * 2;
+        let out = fw::build_main_with_part_bytes(&bytes, b"");
+        ctx.eval(1);
+        ctx.distinct(1);
+        ctx.distinct(2);
+        let bad = match &out {
+            Outcome::Panic(_) => true,
+            Outcome::Err(_) => case["must_build"].as_bool() == Some(true),
+            Outcome::Ok(r) => r.code.get(at..at + 2).map(|w| w != &isa::words_to_bytes(&isa::encode(form, &[case["d"].as_i64().unwrap_or(0)]))[..]).unwrap_or(true),
+        };
+        if bad {
+            ctx.violation("rel/replay", format!("replayed file still fails: {}", out.kind()), case.clone());
+        }
+        return fw::finish(ctx, "replay", &[]);
+    }
     let src = case["source"].as_str().unwrap_or("");
     let form = isa::form(case["form"].as_str().unwrap_or("rjmp"));
     let d = case["d"].as_i64().unwrap_or(0);
